@@ -56,7 +56,7 @@ def run_cases(b, cases, workdir):
                  os.path.join(c.BUILD, "xdrv"), sp, op]
         if can_ns:
             import shlex
-            cmd = ["unshare", "-p", "-f", "--mount-proc", "sh", "-c", "mount -o remount,hidepid=2 /proc 2>/dev/null; exec " + " ".join(shlex.quote(x) for x in inner)]
+            cmd = ["unshare", "-p", "-f", "--kill-child", "--mount-proc", "sh", "-c", "mount -o remount,hidepid=2 /proc 2>/dev/null; exec " + " ".join(shlex.quote(x) for x in inner)]
         else:
             cmd = inner
         try:
